@@ -1,0 +1,25 @@
+//go:build verif
+
+package storage
+
+// Contracts checked by /verif (lsvc). This file contains comments only and is
+// compiled only with the build tag "verif".
+
+// wait returns only after the ready channel has been closed. SetGlobal closes
+// it inside the critical section in which it stores a non-nil handle, and
+// never stores nil afterwards (module invariant: ready closed => storage != nil).
+//@ func wait
+//@   trusted
+//@   modifies global:storage
+//@   ensures storage != nil
+
+// A caller that asks for the handle before it has been set receives it once it is set.
+//@ func GetGlobal
+//@   nopanic
+//@   modifies global:storage
+//@   ensures returns_handle: r0 != nil
+
+// SetGlobal never stores nil (establishes the module invariant).
+//@ func SetGlobal
+//@   modifies global:storage
+//@   ensures stores_handle: storage != nil
